@@ -322,3 +322,55 @@ fn order_replay() {
         Err(e) => println!("OBSERVED: reading reachable storage failed after collections: {}", e.to_string().chars().take(160).collect::<String>()),
     }
 }
+
+// Native replay for the opcode-scan check (C06, E3f): a function compiled earlier assigns a global with `set!`
+// (opcode SET carrying the global's slot; `set!` returns the previous value).  The function is called once (the
+// binding now holds 'first), the global is redefined (the old slot becomes a reclamation candidate whose only user
+// is that SET instruction), a thousand shadowed definitions trigger the recycling of global slots and fifty new
+// definitions follow.  Called again, the old function must still see ITS binding: the previous value it gets back
+// is 'first, and no later definition changes.
+#[test]
+fn opscan_replay() {
+    let mut engine = Engine::new();
+    let mut eval = |src: String| -> Result<String, String> {
+        engine.run(src).map(|vals| vals.last().map(|v| v.to_string()).unwrap_or_default()).map_err(|e| e.to_string())
+    };
+    eval("(define counter 0)".to_string()).unwrap();
+    eval("(define (bump! v) (set! counter v))".to_string()).unwrap();
+    let first = eval("(bump! 'first)".to_string());
+    eval("(define counter 100)".to_string()).unwrap();
+    for i in 0..1000 {
+        eval(format!("(define junk {})", i)).unwrap();
+    }
+    for i in 0..50 {
+        eval(format!("(define victim{} 'v{})", i, i)).unwrap();
+    }
+    let second = eval("(bump! 'second)".to_string());
+    let mut bad = Vec::new();
+    if first != Ok("0".to_string()) {
+        println!("NOT-REPLAYABLE: set! did not return the previous value ({:?})", first);
+        return;
+    }
+    if second != Ok("first".to_string()) {
+        bad.push(format!("the old function's second (set! counter ..) found {:?} in its slot instead of 'first", second));
+    }
+    for i in 0..50 {
+        let got = eval(format!("victim{}", i));
+        if got != Ok(format!("v{}", i)) {
+            bad.push(format!("victim{} = {:?}", i, got));
+        }
+    }
+    let junk = eval("junk".to_string());
+    let counter = eval("counter".to_string());
+    if junk != Ok("999".to_string()) {
+        bad.push(format!("junk = {:?}", junk));
+    }
+    if counter != Ok("100".to_string()) {
+        bad.push(format!("counter = {:?}", counter));
+    }
+    if bad.is_empty() {
+        println!("COMPLETED: the earlier function still assigns its own binding");
+    } else {
+        println!("OBSERVED: a function compiled before a redefinition assigns (set!) into a global slot that was recycled for later definitions: {}", bad.join(", "));
+    }
+}
